@@ -166,7 +166,7 @@ def one_setup(chk, drv, it, stats):
     setup = H.make_setup([nr, nth, nz, nv], [rdeg, min(3, nth - 1) or 1, min(3, nz - 1) or 1, vdeg], uniform_flag,
                          vrange=rng.choice([(-7.32, 7.32), (0.0, 10.0), (-3.0, 5.0)]),
                          period=(False, True, True, vkind.startswith('periodic')), vbreaks=vbreaks, **consts)
-    setup['quad_degree'] = rng.choice([3, 6])
+    setup['quad_degree'] = rng.choice([0, 1, 2, 3, 6])     # the first constructor argument is not the degree of the v spline
     perturbed = rng.random() < 0.7
     cplx = rng.random() < 0.5
     kind = rng.choice(['random', 'random', 'near_eq', 'equilibrium', 'poly', 'sparse'])
